@@ -708,3 +708,29 @@ rewrite E; apply: phi_inj; rewrite phi_peval polyQ_pderivn /polyQ /= phi1'.
 rewrite cons_poly_def mul0r add0r derivnC.
 by case: k {le_k H E} => [|k] /=; rewrite ?hornerC ?horner0 ?phi1' ?phi0'.
 Qed.
+
+(* closed form of the whole result (hence uniqueness of the returned vector): entry j + k*len_g is
+   the k-th derivative at the centre of the Lagrange basis polynomial of node j on the full grid *)
+Theorem fornberg_closed_form (grid : list Qc) (a : Qc) (max_deriv : N) :
+  NoDup grid -> guard_size (length grid) max_deriv = true ->
+  exists w,
+    fdiff grid max_deriv a = Ok w /\
+    forall j k : nat, (j < length grid)%coq_nat -> (k <= N.to_nat max_deriv)%coq_nat ->
+      List.nth (j + k * length grid)%coq_nat w VNan
+      = VQ (peval (pderivn k (lagrange grid j)) a).
+Proof.
+move=> Hnd G; have [n0 Hsz] := guard_sizeP _ _ G.
+set md := N.to_nat max_deriv in Hsz *.
+have [w [Ew Rw]] := fdiff_refines grid a md n0 Hsz.
+rewrite N2Nat.id in Ew.
+have lt0n : (0 < length grid)%N by apply/ltP.
+exists w; split=> // j k lt_j le_k.
+rewrite (repr_nth grid md w _ j k VNan Rw lt_j le_k); apply: vphi_eq.
+have -> : vphi (fdiffF grid a md j k) =
+    Some ((L (fun l => phi (gpt grid l)) (length grid).-1 j)^`(k).[phi a]).
+  by move/ltP: lt_j => lt_j; move/leP: le_k => le_k; apply: fdiffF_lagrange.
+congr Some; rewrite phi_peval polyQ_pderivn.
+have lt_m : ((length grid).-1 < length grid)%N by rewrite prednK.
+have le_jm : (j <= (length grid).-1)%N by rewrite -ltnS prednK //; apply/ltP.
+by rewrite -(polyQ_lagrange lt_m le_jm) prednK // firstn_all.
+Qed.
